@@ -139,3 +139,33 @@ Qed.
 Theorem parse_full_nosemi : forall b, wfp_block b = true -> csf_block b = true ->
   parse_from l_grammar L_EXP (render_block b) = PFuel \/ parse_ok b.
 Proof. intros b H C. apply parse_indented_from. apply (proj1 wfp_in_frag b H C). Qed.
+
+(** The only thing between [parse_full_nosemi] and totality is the fuel: on the domain, the parse is the
+    ideal one exactly when the computed fuel does not run out. *)
+Theorem parse_total_iff : forall b, wfp_block b = true -> csf_block b = true ->
+  (parse_ok b <-> parse_from l_grammar L_EXP (render_block b) <> PFuel).
+Proof.
+  intros b H C. split.
+  - intros [p [kids [E _]]]. rewrite E. discriminate.
+  - intro N. destruct (parse_full_nosemi b H C) as [F|P]; [contradiction | exact P].
+Qed.
+
+(** groundwork for texts without a final newline: the root text is the same *)
+Lemma trim_app_nl x : trim (x ++ [10]) = trim x.
+Proof.
+  unfold trim. induction x as [|c x IH]; [reflexivity|].
+  cbn [app trim_start]. destruct (is_ws c); [exact IH|].
+  change (c :: x ++ [10]) with ((c :: x) ++ [10]). unfold trim_end. rewrite rev_app_distr. reflexivity.
+Qed.
+
+Lemma kw_done_eoi pos : EV (PRef L_KW_DONE) AtNon pos s_done (POk (pos + 4) [] [Node L_EOI (pos + 4) (pos + 4) []]).
+Proof.
+  ref_s. apply (evals_of_ev l_grammar 6); [|discriminate]. vm_compute.
+  rewrite !Nat.add_succ_r, !Nat.add_0_r. reflexivity.
+Qed.
+
+Lemma kw_fi_eoi pos : EV (PRef L_KW_FI) AtNon pos s_fi (POk (pos + 2) [] [Node L_EOI (pos + 2) (pos + 2) []]).
+Proof.
+  ref_s. apply (evals_of_ev l_grammar 6); [|discriminate]. vm_compute.
+  rewrite !Nat.add_succ_r, !Nat.add_0_r. reflexivity.
+Qed.
